@@ -488,7 +488,28 @@ func RunHistReuse(r *Run) {
 	failedDes := 0
 	body := func(newCall func()) {
 		var pool []*simObj // reusable objects (readable or not)
+		var blobs []*simBlob
 		handles := map[*simObj]*simdjson.ParsedJson{}
+		defer func() {
+			// blobs handed to Deserialize are the caller's: read with a fresh Serializer they still hold their documents
+			for i, bl := range blobs {
+				if !bl.lent || r.failed() {
+					continue
+				}
+				var out *simdjson.ParsedJson
+				var derr error
+				if err := safely(func() error { out, derr = simdjson.NewSerializer().Deserialize(bl.b, nil); return nil }); err != nil {
+					walkerFail(r, "deserialize", fmt.Sprintf("blob #%d read again after the history", i), err)
+					return
+				}
+				if derr != nil {
+					r.violate("deserialize", "error-later:"+msgClass(derr.Error()), fmt.Sprintf("blob #%d (mode %d) no longer deserializes after the history %v: %v", i, bl.mode, trace, derr))
+					return
+				}
+				readBack(r, &simObj{pj: out, model: bl.model, nd: bl.nd, copy: true, origin: "blob read again"}, bInto, fmt.Sprintf("blob #%d (mode %d) read again with a fresh Serializer after the history %v", i, bl.mode, trace), nil)
+				r.stat("blobs_read_again_after_history", 1)
+			}
+		}()
 		defer func() {
 			// settle: let anything a (failed) call may have left running finish (fake clock: the sleep returns once
 			// every other goroutine of the bubble is idle), then every live object must still expose its document
@@ -503,7 +524,6 @@ func RunHistReuse(r *Run) {
 			}
 		}()
 		sers := []*serState{{s: simdjson.NewSerializer(), mode: 2}, {s: simdjson.NewSerializer(), mode: 2}}
-		var blobs []*simBlob
 		for k := 0; k < nops && !r.failed(); k++ {
 			what := fmt.Sprintf("call #%d", k)
 			kind := c.Pick("rop", 8, 2, 3, 1, 1, 2)
@@ -620,6 +640,7 @@ func RunHistReuse(r *Run) {
 				}
 				var out *simdjson.ParsedJson
 				var derr error
+				bl.lent = true
 				if err := safely(func() error { out, derr = st.s.Deserialize(bl.b, dst); return nil }); err != nil {
 					walkerFail(r, "deserialize", what, err)
 					return
